@@ -216,7 +216,7 @@ func (fr *Frame) declaredNoEffect(name string) bool {
 	for f := fr; f != nil; f = f.parent {
 		if f.fc != nil {
 			for _, p := range f.fc.NoEffect {
-				if strings.Contains(name, p) {
+				if matchCallee(p, name) {
 					return true
 				}
 			}
@@ -255,7 +255,11 @@ func (fr *Frame) topFrame() *Frame {
 	return t
 }
 
+// matchCallee: substring match; a pattern ending in '$' must match the end of the callee name.
 func matchCallee(pat, name string) bool {
+	if strings.HasSuffix(pat, "$") {
+		return strings.HasSuffix(name, strings.TrimSuffix(pat, "$"))
+	}
 	return strings.Contains(name, pat)
 }
 
